@@ -5,7 +5,7 @@
     (props/c13.py).  Only theorem statements; proofs are [exact] of lemmas from Proofs/. *)
 From Coq Require Import List ZArith NArith Bool.
 From HK Require Import Model.Queue Model.QueueMon Proofs.QueueBase Proofs.QueueInv Proofs.QueueInvStep
-  Proofs.QueueStep Proofs.QueueFlavour Proofs.QueueAdmit.
+  Proofs.QueueStep Proofs.QueueFlavour Proofs.QueueAdmit Proofs.QueueFlavourHist.
 Import ListNotations.
 Open Scope Z_scope.
 
@@ -77,9 +77,46 @@ Example C13_witness :
   /\ map ev_after (model_trace Mem (mkCfg 3 false 0 0 0 0 0 0) h) = map ev_after (model_trace Sql (mkCfg 3 false 0 0 0 0 0 0) h).
 Proof. vm_compute. split; reflexivity. Qed.
 
+(** Over whole histories: started in states with the same observable content, the two flavours return the
+    same result and hold the same stored messages after EVERY operation of a history, as long as each
+    step stays in a regime in which the backends are specified to agree ([agree_hist]: every SQLite
+    dequeue sweeps, i.e. the sweep interval has passed since the last sweeping dequeue; enqueues under
+    the reject policy or without depth limit, with the memory-only resource rules not firing; no process
+    restart in between).  The per-step theorems above say what the other regimes are. *)
+Theorem C13_flavours_agree_along_history : forall c xs sm ss,
+  same_obs sm ss -> agree_hist c ss xs ->
+  map ev_res (fst (run Mem c sm xs)) = map ev_res (fst (run Sql c ss xs))
+  /\ map ev_after (fst (run Mem c sm xs)) = map ev_after (fst (run Sql c ss xs))
+  /\ same_obs (snd (run Mem c sm xs)) (snd (run Sql c ss xs)).
+Proof. exact flavours_agree_along_history. Qed.
+
+(** without a depth limit and without an explicit memory-pressure limit an enqueue never leaves that regime *)
+Theorem C13_unlimited_queue_enqueues_agree : forall c l, c_max_depth c <= 0 -> c_press_items c <= 0 -> mem_rules_off c l.
+Proof. exact no_limits_rules_off. Qed.
+
+(** non-vacuity: the premise holds for a history with retention pruning, batch enqueue, dequeues 10 ms apart, nack, dead-letter, requeue *)
+Example C13_history_premise_met :
+  let e i := mkEnq (Some i) 1%N 1%N None None 5%N 0%N 0%N in
+  let o0 := mkOracle [] [] [] [] in
+  let c := mkCfg 0 false 100000000 1 0 0 2 0 in
+  let h := [(EnqueueBatch 100 [e 1%N; e 2%N; e 3%N], o0);
+            (Dequeue 20000000 None None 2 1000, mkOracle [(1%N, 11%N); (2%N, 12%N)] [] [] []);
+            (LeaseOp 20000300 (KNack 5) (LKnown 11%N false), o0);
+            (LeaseBatch 20000400 (KDead 3%N) [LKnown 12%N false; LUnknown], o0);
+            (Dequeue 40000000 None None 5 1000, mkOracle [(1%N, 13%N); (3%N, 14%N)] [] [] []);
+            (Manage 40000100 MRequeueDead [RPlain 2%N], o0);
+            (Stats 40000200, o0)] in
+  agree_hist c init h
+  /\ map (fun ev => map m_st (ev_after ev)) (model_trace Sql c h)
+     = [[Queued; Queued; Queued]; [Leased; Leased; Queued]; [Queued; Leased; Queued]; [Queued; Dead; Queued];
+        [Leased; Dead; Leased]; [Leased; Queued; Leased]; [Leased; Queued; Leased]].
+Proof. vm_compute. repeat split; auto; left; discriminate. Qed.
+
 Print Assumptions C13_flavour_free_operations_agree.
 Print Assumptions C13_dequeue_agrees_when_sweeping.
 Print Assumptions C13_enqueue_agrees_partial.
 Print Assumptions C13_victims_equally_old_sql.
 Print Assumptions C13_victims_equally_old_mem.
 Print Assumptions C13_backend_constants_agree.
+Print Assumptions C13_flavours_agree_along_history.
+Print Assumptions C13_unlimited_queue_enqueues_agree.
